@@ -261,6 +261,33 @@ def check_operators(run, rng, engine: str, case: Any) -> None:
                 ch.value = 'mutated'
         if kv_snapshot(a) != sa or kv_snapshot(b) != sb:
             run.violation('mutating the result of a + b changed an operand', case=case, engine=engine, key='kv-add-aliases')
+    # the single-keyvalue form (deprecated but supported): block + one non-root Keyvalues appends a COPY of it
+    blk = Keyvalues('left', [Keyvalues('k', 'v')])
+    single = gen_kv(rng)
+    if single.is_root():
+        single = Keyvalues('single', [c for c in single])
+    s_left, s_single = kv_snapshot(blk), kv_snapshot(single)
+    with warnings.catch_warnings():
+        warnings.simplefilter('ignore')
+        res = blk + single
+        blk2 = Keyvalues('left2', [])
+        blk2 += single
+    run.count('operator_checks')
+    if kv_snapshot(res) != (s_left[0], list(s_left[1]) + [s_single]):
+        run.violation('block + single keyvalue is not the block followed by that keyvalue', witness={'got': kv_snapshot(res)}, case=case,
+                      engine=engine, key='kv-add-wrong-result')
+    for holder in (res, blk2):
+        for ch in list(holder.iter_tree(blocks=True)):
+            if ch is holder:
+                continue
+            if ch.has_children():
+                ch.append(Keyvalues('mut', '1'))
+            else:
+                ch.value = ch.value + '~'
+            ch.name = (ch.real_name or '') + '_r'
+    if kv_snapshot(single) != s_single or kv_snapshot(blk) != s_left:
+        run.violation('mutating the result of block + single keyvalue (or block += single) changed an operand',
+                      witness={'operand_before': s_single, 'operand_after': kv_snapshot(single)}, case=case, engine=engine, key='kv-add-aliases')
     # += changes only the left operand; extend likewise
     a2, b2 = gen_kv(rng), gen_kv(rng)
     if not b2.is_root():
